@@ -206,6 +206,24 @@ theorem npres_pRetract (E : List Id) (D : List Nat) (id : Id) (x : Option Nat) :
       | exact h1
       | exact markChanged_ninv h1 hy rfl
 
+theorem npres_pAct (E : List Id) (D : List Nat) (id : Id) (a : Act) : NPres E D (pAct id a) := by
+  intro s tx e h
+  unfold pAct
+  split
+  · exact h.same
+  · rename_i tx1 x hl
+    obtain ⟨h1, hx⟩ := load_ninv h hl
+    split
+    · exact h1
+    · exact markChanged_ninv h1 hx rfl
+
+theorem NInv.pActs {E : List Id} {D : List Nat} (id : Id) (acts : List Act) {p : PS} (h : NInv E D p) :
+    NInv E D (pActs id acts p) := by
+  unfold Tx.pActs
+  induction acts generalizing p with
+  | nil => exact h
+  | cons a r ih => exact ih (h.andThen (npres_pAct E D id a))
+
 theorem npres_pPurge (E : List Id) (D : List Nat) (id : Id) (b : Bool) : NPres E D (pPurge id b) := by
   intro s tx e h
   unfold pPurge
@@ -299,7 +317,12 @@ theorem applyClause_ninv (c : Clause) (D : List Nat) (hD : ∀ n, declares c = s
           npres_chain hE
   | upsert hh ty key val expect => simp only [applyClause]; (repeat' split) <;> npres_chain h
   | ensure hh sub p obj expect bad => simp only [applyClause]; (repeat' split) <;> npres_chain h
-  | update t val expect bad => simp only [applyClause]; (repeat' split) <;> npres_chain h
+  | update t acts expect bad =>
+      simp only [applyClause]
+      split
+      · npres_chain h
+      · apply NInv.pActs
+        npres_chain h
   | setState t to expect => simp only [applyClause]; (repeat' split) <;> npres_chain h
   | retract t expect => simp only [applyClause]; (repeat' split) <;> npres_chain h
   | purge t bad => simp only [applyClause]; (repeat' split) <;> npres_chain h
